@@ -9,7 +9,7 @@ path too many in the prefix transducer doubles a monomial.
 
 from hypothesis import strategies as st
 
-from vf import gen
+from vf import cfgref, gen
 from vf.build import lib_cfg
 from vf.cfgref import RG, Inside, prefix
 from vf.core import LibRaised
@@ -39,7 +39,7 @@ def examples(tier):
 def strategy(draw, tier="quick"):
     regime = draw(st.sampled_from(REGIMES))
     shape = "nonrecursive" if regime in ("QQ", "FREE") else None
-    g = draw(gen.grammar(regimes=[regime], shape=shape, max_terms=2))
+    g = draw(gen.grammar(regimes=[regime], shape=shape, max_terms=2, symbols=True))
     return {"g": g, "perm": draw(st.sampled_from([0, 1, "rev"])), "n": 3 if tier == "quick" else draw(st.sampled_from([3, 4]))}
 
 
@@ -51,7 +51,7 @@ def check(case, ctx):
     ctx.cls(*gen.classify(g), "regime:" + g["regime"])
     cfg = ctx.call("build", lib_cfg, M, g, case.get("perm"))
     n = case.get("n", 3)
-    V = list(g["V"])
+    V = [cfgref.sym(v) for v in g["V"]]
     prefixes = gen.all_strings(V, n)
     want = {p: prefix(G, p) for p in prefixes}
     Z = want[()]
